@@ -38,6 +38,7 @@ type prog struct {
 	api    string
 	pkg    string
 	msgs   []string
+	nodes  []string
 	hasNd  bool
 }
 
@@ -58,11 +59,11 @@ func genOnce(name string, dbc []byte) ([]byte, string) {
 
 // apiOf lists the exported API of a generated file from its syntax: type declarations with their kind,
 // interface method sets, struct-less; functions and methods with parameter and result types; constants.
-func apiOf(src []byte) (string, []string, bool) {
+func apiOf(src []byte) (string, []string, []string, bool) {
 	fset := token.NewFileSet()
 	f, err := parser.ParseFile(fset, "x.go", src, 0)
 	if err != nil {
-		return "parse-error", nil, false
+		return "parse-error", nil, nil, false
 	}
 	typ := func(e ast.Expr) string {
 		var b bytes.Buffer
@@ -87,6 +88,7 @@ func apiOf(src []byte) (string, []string, bool) {
 	}
 	var items []string
 	var msgs []string
+	var nodeNames []string
 	hasNodes := false
 	for _, d := range f.Decls {
 		switch d := d.(type) {
@@ -151,11 +153,15 @@ func apiOf(src []byte) (string, []string, bool) {
 						msgs = append(msgs, id.Name)
 					}
 				}
+				// node constructors: New<N>(network, address string) <N>
+				if id, ok := d.Type.Results.List[0].Type.(*ast.Ident); ok && "New"+id.Name == d.Name.Name && fields(d.Type.Params) == "string,string" {
+					nodeNames = append(nodeNames, id.Name)
+				}
 			}
 		}
 	}
 	sort.Strings(items)
-	return strings.Join(items, "\n"), msgs, hasNodes
+	return strings.Join(items, "\n"), msgs, nodeNames, hasNodes
 }
 
 func run(dir string, name string, args ...string) (string, error) {
@@ -296,7 +302,7 @@ func main() {
 		dir := filepath.Join(scratch, p.pkg)
 		must(os.MkdirAll(dir, 0o755))
 		must(os.WriteFile(filepath.Join(dir, "gen.go"), out, 0o644))
-		p.api, p.msgs, p.hasNd = apiOf(out)
+		p.api, p.msgs, p.nodes, p.hasNd = apiOf(out)
 	}
 	// the command-line entry point (`cantool generate <in> <out>`): its files must be byte-identical to what the
 	// library calls return for the same source name; regenerating into a directory that already holds (longer) files
@@ -334,13 +340,13 @@ func main() {
 	wg.Wait()
 	// registry + executor
 	var reg bytes.Buffer
-	reg.WriteString("package main\n\nimport (\n\t\"go.einride.tech/can\"\n\t\"go.einride.tech/can/pkg/descriptor\"\n\t\"go.einride.tech/can/pkg/generated\"\n")
+	reg.WriteString("package main\n\nimport (\n\t\"go.einride.tech/can\"\n\t\"go.einride.tech/can/pkg/descriptor\"\n\t\"go.einride.tech/can/pkg/generated\"\n\t\"go.einride.tech/can/pkg/canrunner\"\n")
 	for _, p := range order {
 		if p.status == "ok" {
 			fmt.Fprintf(&reg, "\t%s \"go.einride.tech/can/zzgen/%s\"\n", p.pkg, p.pkg)
 		}
 	}
-	reg.WriteString(")\n\nvar _ can.Frame\nvar _ *descriptor.Database\nvar _ generated.Message\n\nvar registry = map[string]*pkgEntry{\n")
+	reg.WriteString(")\n\nvar _ can.Frame\nvar _ *descriptor.Database\nvar _ generated.Message\nvar _ canrunner.Node\n\nvar registry = map[string]*pkgEntry{\n")
 	for _, p := range order {
 		if p.status != "ok" {
 			fmt.Fprintf(&reg, "\t%q: {status: %q},\n", p.key, p.status)
@@ -349,6 +355,10 @@ func main() {
 		fmt.Fprintf(&reg, "\t%q: {status: \"ok\", newMsg: map[string]func() generated.Message{\n", p.key)
 		for _, m := range p.msgs {
 			fmt.Fprintf(&reg, "\t\t%q: func() generated.Message { return %s.New%s() },\n", m, p.pkg, m)
+		}
+		fmt.Fprintf(&reg, "\t}, newNode: map[string]func() canrunner.Node{\n")
+		for _, n := range p.nodes {
+			fmt.Fprintf(&reg, "\t\t%q: func() canrunner.Node { return %s.New%s(\"\", \"\").(canrunner.Node) },\n", n, p.pkg, n)
 		}
 		fmt.Fprintf(&reg, "\t}, dispatch: func(f can.Frame) (generated.Message, error) { return %s.Messages().UnmarshalFrame(f) }, database: func() *descriptor.Database { return %s.Messages().Database() }},\n", p.pkg, p.pkg)
 	}
